@@ -37,7 +37,7 @@ func main() {
 	}
 	scn = append(scn, &vexplore.Scenario{
 		Name: "always-available-rejected-override", Desc: "always-available path: A attached with reader R1 keeps writing while B, whose tracks are incompatible, tries to override it (A is closed, B refused)",
-		Body: pmlib.PubReadBodyOpt(always, []pmlib.PubSpec{{ID: "A", Writes: 3, Stay: true, Pre: true}, {ID: "B", Writes: 1, Incompatible: true}}, []pmlib.RdrSpec{{ID: "R1", Pre: true}}, false, true),
+		Body: pmlib.PubReadBodyOpt(always, []pmlib.PubSpec{{ID: "A", Writes: 3, Stay: true, Pre: true, QuietBeforeLast: true}, {ID: "B", Writes: 1, Incompatible: true}}, []pmlib.RdrSpec{{ID: "R1", Pre: true}}, false, true),
 		Check: pmlib.CheckPublishersOpt(true, true), QuickBound: 2, ThoroughBound: 3, Horizon: 20000, Bg: bg,
 	})
 	scn = append(scn, &vexplore.Scenario{Name: "stream-level-replace", Desc: "stream level (SubStream.WriteUnit stale-substream guard): always-available stream, publisher A (2 writes) replaced by B (1 write) concurrently, reader attached",
